@@ -954,9 +954,14 @@ var blockRules = map[BlockKind]blockRule{
 	HTMLBlockKind: {
 		match: func(p *lineParser) bool {
 			if htmlBlockConditions[p.ContainerHTMLCondition()].endCondition(p.BytesAfterIndent()) {
-				if !p.IsRestBlank() {
-					p.CollectInline(RawHTMLKind, len(p.BytesAfterIndent()))
+				if p.IsRestBlank() {
+					// The block ends before a blank line.
+					// The blank line is not part of it:
+					// leave it to be handled like any other blank line
+					// (it matters for the looseness of an enclosing list).
+					return false
 				}
+				p.CollectInline(RawHTMLKind, len(p.BytesAfterIndent()))
 				p.ConsumeLine()
 				return false
 			}
